@@ -190,6 +190,11 @@ def Event.internal : Event → Bool
   | .rRecvEOF | .rLookup | .rFire | .rSetErr | .rTerminate | .rAbort | .rCloseSend | .rDrain | .rDone => true
   | _ => false
 
+/-- what the reader goroutine does after a failure of the output stream (anything but a well-formed
+response or a clean end: also a length prefix above the limit — `Delimited.Res.tooLarge`), when no
+send is in progress: the deferred function of `consumeOutput` from `CompareAndSwap` to `close(done)` -/
+def failSeq : List Event := [.rRecvBad, .rSetErr, .rTerminate, .rAbort, .rCloseSend, .rDrain, .rDone]
+
 /-! ### the `sync.WaitGroup` of a server batch that sends through the runner (C05)
 
 `runTestCasesForServer` does `wg.Add(1)` before every `sendRequest`, `wg.Done()` inside the
